@@ -12,7 +12,7 @@ from vp.stubs import tinyio
 PROP = 'C15'
 META = dict(
     explanation='Line framing: one symbolic text of concrete length L (every character a solver variable over the whole str alphabet, newlines wherever the solver puts them) is cut at two positions (first concrete per obligation, second symbolic; empty chunks included) '
-                'and fed to the real line.unframe: the emitted lines must be text.split("\\n") without a trailing empty piece - in particular an unterminated last line is delivered at completion. A second form frames n symbolic newline-free items with the real frame, '
+                'and fed to the real line.unframe: the emitted lines (on a subscription that follows an aborted one of the same operator object) must be text.split("\\n") without a trailing empty piece - in particular an unterminated last line is delivered at completion. A second form frames n symbolic newline-free items with the real frame, '
                 're-cuts the concatenation and unframes. Length-prefix framing: items with symbolic payload bytes are framed by the real frame (prefix 1/2/4/8 bytes, little/big endian), the concatenation is cut at two solver-chosen positions '
                 '(inside a prefix, between prefix and payload, inside a payload) and the real unframe must return the items in order; with a solver-chosen truncation point exactly the completely received frames are delivered and an incomplete trailing frame never is.',
     bounds=dict(quick='line: L <= 4 characters, 2 cuts; items: <= 2 items of <= 2 chars; length-prefix: <= 2 items of <= 2 bytes (3 for prefix 1), all cut pairs, all truncation points, 4 prefix sizes x 2 byte orders',
@@ -31,6 +31,9 @@ def _sel(x, n):
 
 
 def _run(chunks, op):
+    if chunks:
+        # the same operator object first serves a subscription that fails after its first chunk (retry history): buffers must not survive it
+        D.failing_src(chunks[:1]).pipe(op).subscribe(on_next=lambda i: None, on_error=lambda e: None)
     out = []
     D.src(chunks).pipe(op).subscribe(on_next=out.append, on_error=lambda e: out.append(('ERR', repr(e))), on_completed=lambda: out.append('END'))
     return out
